@@ -354,6 +354,18 @@ def main():
     tot = {"functions": 0, "shapes": 0, "skipped_opaque": 0, "unsupported_paths": 0, "bounded_paths": 0,
            "domain_errors": 0, "witnesses": 0, "budget_exhausted": 0, "rejected_by_compiler": 0,
            "not_reproduced_via_source": 0}
+    # a generated family none of whose programs compiles has silently dropped out (e.g. one of
+    # its shared definitions is rejected): that is a broken check, not a pass
+    fam_total, fam_ok = {}, {}
+    for r in results:
+        fam = r["name"].split("/")[0]
+        if fam.startswith("gen_"):
+            fam_total[fam] = fam_total.get(fam, 0) + 1
+            fam_ok[fam] = fam_ok.get(fam, 0) + (1 if r["compiled"] else 0)
+    for fam in fam_total:
+        if fam_ok[fam] == 0:
+            rep.inconc("generated family %s: none of its %d programs is accepted by the compiler" % (fam, fam_total[fam]))
+    rep.extra["generated_families_accepted"] = fam_ok
     for r in results:
         if not r["compiled"]:
             continue
